@@ -98,6 +98,17 @@ CHECKS = {
         note="Termination is an event budget, not a proof; surplus (clamped) exit events are not observable state and are not reported; interpreter recursion limit 1000.",
         design="§5 C08",
     ),
+    "C09": dict(
+        category="exploration",
+        technique="Hypothesis-constructed specs (cyclic graphs and discriminated unions included) generated in 4 child interpreters differing in PYTHONHASHSEED, warm-up history, project root and patched wall clock, manifests (relative path -> sha256) compared; in-process histories generate(force);generate(no force) with full-tree snapshots and generate;mutate(edit client/model/models __init__/core file, delete endpoint module);generate(no force)",
+        text="800 documents per quick run, each generated 4+3 times. Any byte difference between the child runs, any id()-derived name "
+             "or absolute path in the output, any touched file or failure in the no-op re-run and any mutation that the non-force run "
+             "reports as up to date is a violation. 4 root causes found and repaired (shared-core re-run always 'Differences found', "
+             "deleted file unnoticed, suffix-colliding operationIds differing between force and diff path, hash-seed dependent order "
+             "of auto-added path arguments).",
+        note="Package name equal across runs (paths compared relative to the project root); post-processing off in quick; 4 hash seeds per case, so a seed-specific ordering that coincides on all 4 is missed.",
+        design="§5 C09",
+    ),
     "C12": dict(
         category="exploration",
         technique="Hypothesis-constructed specs x core layouts x history (fresh project / shared core holding drifted runtime files) through generate_client; AST scan of every import node of every emitted file (module level, nested, TYPE_CHECKING) against an allow-list; fresh child interpreter with the generator blocked at the meta path running an exercise script (round-trips, get_mapping(), every client method); byte comparison of the copied runtime files",
